@@ -4,5 +4,17 @@ CHECKS = {
         "note": "Trusted: mc/oracles/emfmt.py (40-line EM parser written from the format description), numpy float32 rounding. Value palette is finite; lists longer than 5 rows are not explored.",
         "technique": "bounded-exhaustive small-scope enumeration of inputs on the implementation with an independent byte-level oracle",
     },
+    "C05": {
+        "engine": "mc/bfs",
+        "text": "Explicit-state BFS over operation histories on a live 4-particle Motl: 12 operation instances (update_coordinates, scale x2, shift x2, rotate x2, flip x4 forms, canonicalise), every history up to depth 4 (quick) / 6 (thorough), de-duplicated on the complete DataFrame state; after every transition positions (x+shift) and rotation matrices are compared with a reference model, so the composition laws are facts about the explored graph.",
+        "note": "Trusted: mc/oracles/so3.py (explicit zxz matrices), numpy. Four particle kinds (generic, both gimbal locks, out-of-range angles, half-integer ties), two tomograms; tolerances 1e-8 / 1e-9.",
+        "technique": "explicit-state BFS over operation histories on the real objects, lock-step reference model",
+    },
+    "C08": {
+        "engine": "mc/bfs",
+        "text": "Explicit-state BFS on live Motl objects: family A explores the 29 merge-free operation instances from 5 initial lists level by level (to the fixpoint in the thorough tier, depth-bounded in the quick tier), family B explores histories with a bounded number of merges (the deviation that grows lists). States are keyed on the complete observable DataFrame state (cells, row order, index labels, column order, dtypes); every transition is compared with a pure-Python row-set model and the 20-field / payload-unchanged invariant is evaluated in every state.",
+        "note": "Trusted: the row-set model in mc/props/C08.py (lists of tuples), numpy. Lists of at most 12 rows; NaN == 0.0 for payload comparison; operations on a feature column with a missing value are not enabled.",
+        "technique": "explicit-state BFS with canonical state hashing over the implementation, lock-step reference model",
+    },
 }
 NOT_APPLICABLE = {}
